@@ -102,6 +102,16 @@ func registerExternals(w *World) {
 		fr.in.unwind = int(asInt64(args[0]))
 		return nil, true
 	}
+	x[zzPkg+".Bounded"] = func(fr *frame, args []value) (value, bool) {
+		in := fr.in
+		steps, depth := asInt64(args[0]), int(asInt64(args[1]))
+		if steps <= 0 {
+			in.boundSteps, in.boundDepth, in.boundMsg = 0, 0, ""
+			return nil, true
+		}
+		in.boundSteps, in.boundDepth, in.boundMsg = in.steps+steps, in.depth+depth, toGoString(args[2])
+		return nil, true
+	}
 	x[zzPkg+".Thorough"] = func(fr *frame, args []value) (value, bool) { return fr.in.thorough, true }
 	x[zzPkg+".PanicOK"] = func(fr *frame, args []value) (value, bool) {
 		fr.in.panicOK = args[0].(bool)
